@@ -144,8 +144,14 @@ pub fn scope_case() -> BoxedStrategy<ScopeCase> {
                 4 => {}
                 n if n < 4 => parts.truncate(n),
                 n => {
+                    // surplus components after the scope, or between the access key and an otherwise correct scope
                     for i in 4..n {
-                        parts.push(["", "x", "aws4_request", "us-east-1"][(ed.0 as usize + i) % 4].to_string());
+                        let extra = ["", "x", "aws4_request", "us-east-1"][(ed.0 as usize + i) % 4].to_string();
+                        if ed.1 % 2 == 0 {
+                            parts.push(extra);
+                        } else {
+                            parts.insert(0, extra);
+                        }
                     }
                 }
             }
@@ -164,7 +170,11 @@ pub fn direct_case() -> BoxedStrategy<Direct> {
             let mut parts = vec!["AKID\u{e9}".to_string(), date, r, s, term];
             parts.truncate(n);
             while parts.len() < n {
-                parts.push("x".into());
+                if ed % 2 == 0 {
+                    parts.push("x".into());
+                } else {
+                    parts.insert(1, ["x", "", "a"][ed as usize % 3].into());
+                }
             }
             (parts.join("/"), region, service, t)
         });
@@ -180,6 +190,13 @@ pub fn direct_case() -> BoxedStrategy<Direct> {
 pub fn subs() -> Vec<Box<dyn AnySub>> {
     vec![
         Box::new(Sub { name: "scope-e2e", quick: 40_000, thorough: 600_000, strat: scope_case, check: check_scope }),
+        Box::new(Sub {
+            name: "accepted-here-refused-under-another-configuration",
+            quick: 10_000,
+            thorough: 150_000,
+            strat: || (plan(quiet_opts()), region(), service(), 0u8..6).prop_map(|(plan, region, service, which)| Switch { plan, region, service, which }).boxed(),
+            check: check_switch,
+        }),
         Box::new(Sub {
             name: "prevalidate-direct",
             quick: 40_000,
@@ -242,6 +259,89 @@ pub fn check_scope(sc: &ScopeCase, cc: &mut CaseCtx) -> CheckResult {
             "server_now": p.cfg.now.compact(), "carrier": format!("{:?}", p.spec.carrier), "model": a.verdict().short(), "crate": o.res.short(), "provider_calls": o.calls()}));
     }
     check_against_model(&a, &o)
+}
+
+#[derive(Clone, Debug, Serialize, Deserialize)]
+pub struct Switch {
+    pub plan: Plan,
+    pub region: String,
+    pub service: String,
+    /// 0 other region, 1 other service, 2 both, 3 region and service exchanged, 4 server a day later, 5 through prevalidate
+    pub which: u8,
+}
+
+/// One process serving several (region, service) configurations: a request accepted under its own
+/// configuration is presented, immediately afterwards and on the same thread, to another one.
+pub fn check_switch(sw: &Switch, cc: &mut CaseCtx) -> CheckResult {
+    let Ok(built) = sw.plan.build() else {
+        cc.class("unsignable");
+        return Ok(());
+    };
+    let first = &built.case;
+    let (a1, o1) = (analyze(first), exec::run(first));
+    if let exec::Res::Unrepresentable(_) = o1.res {
+        return Ok(());
+    }
+    check_against_model(&a1, &o1)?;
+    let mut second = first.clone();
+    match sw.which {
+        0 => second.cfg.region = sw.region.clone(),
+        1 => second.cfg.service = sw.service.clone(),
+        2 => {
+            second.cfg.region = sw.region.clone();
+            second.cfg.service = sw.service.clone();
+        }
+        3 => std::mem::swap(&mut second.cfg.region, &mut second.cfg.service),
+        4 => second.cfg.now = second.cfg.now.add_nanos(86_400_000_000_000),
+        _ => {}
+    }
+    if sw.which == 5 {
+        // the same through the authenticator's own entry point
+        use scratchstack_aws_signature::auth::SigV4AuthenticatorBuilder;
+        let credential = format!("{}/{}/{}/{}/aws4_request", sw.plan.spec.access_key, sw.plan.instant.date8(), sw.plan.cfg.region, sw.plan.cfg.service);
+        let (Some(ts), Some(now)) = (exec::to_datetime(sw.plan.instant), exec::to_datetime(sw.plan.cfg.now)) else { return Ok(()) };
+        let mut verdicts = Vec::new();
+        for (r, s) in [(&sw.plan.cfg.region, &sw.plan.cfg.service), (&sw.region, &sw.plan.cfg.service), (&sw.plan.cfg.region, &sw.service), (&sw.plan.cfg.region, &sw.plan.cfg.service)] {
+            let got = std::panic::catch_unwind(|| {
+                let mut b = SigV4AuthenticatorBuilder::default();
+                b.credential(credential.clone()).signature("sig".to_string()).request_timestamp(ts).canonical_request_sha256([0u8; 32]);
+                b.build().map(|auth| auth.prevalidate(r, s, now, chrono::Duration::minutes(15)).is_ok()).unwrap_or(false)
+            })
+            .map_err(|p| Failure::new("panic:prevalidate", exec::panic_message(p)))?;
+            let want = *r == sw.plan.cfg.region && *s == sw.plan.cfg.service;
+            verdicts.push((r.clone(), s.clone(), got, want));
+        }
+        cc.class("prevalidate-sequence");
+        cc.nontrivial(digest_of(&[credential.as_bytes(), sw.region.as_bytes(), sw.service.as_bytes()]));
+        if let Some((r, s, got, want)) = verdicts.iter().find(|v| v.2 != v.3) {
+            return Err(Failure::new(
+                if *got { "direct-accepted-bad-scope-after-switch" } else { "direct-rejected-valid-scope-after-switch" },
+                format!("credential {} for (region {:?}, service {:?}): accepted={} expected={} in the sequence {:?}", credential, r, s, got, want, verdicts),
+            ));
+        }
+        return Ok(());
+    }
+    let (a2, o2) = (analyze(&second), exec::run(&second));
+    let changed = second.cfg != first.cfg;
+    cc.class(match sw.which {
+        0 => "other-region",
+        1 => "other-service",
+        2 => "other-region-and-service",
+        3 => "region-and-service-exchanged",
+        _ => "server-a-day-later",
+    });
+    if o1.res.is_ok() && changed && a2.verdict().is_specified() {
+        cc.nontrivial(digest_of(&[&first.req.digest().to_le_bytes(), format!("{:?}", second.cfg).as_bytes()]));
+        cc.sample(json!({"accepted_under": format!("{}/{}", first.cfg.region, first.cfg.service), "then_presented_to": format!("{}/{} now={}", second.cfg.region, second.cfg.service, second.cfg.now.compact()),
+            "model": a2.verdict().short(), "crate": o2.res.short(), "provider_calls": o2.calls()}));
+    }
+    if !a2.verdict().is_specified() {
+        cc.unspecified = true;
+    }
+    check_against_model(&a2, &o2)?;
+    // and back again: the first configuration still accepts it
+    let o3 = exec::run(first);
+    check_against_model(&a1, &o3)
 }
 
 #[derive(Clone, Debug, Serialize, Deserialize)]
